@@ -53,6 +53,7 @@ pub struct SynQ {}
 #[unit(Sq_Quarter, "sq4", 0.25)]
 #[unit(Sq_Gross, "sq144", 144)]
 #[unit(Sq_Thousand, "sqk", 1000)]
+#[unit(Sq_Quarter_Twin, "sq4b", 0.250)]
 pub struct SynSq {}
 
 #[quantity(AmountT / SynB)]
@@ -75,3 +76,32 @@ pub struct SynN {}
 #[quantity]
 #[unit(Piece, "pc")]
 pub struct SynS {}
+
+/// More than twenty units (the stable sort of the unit list matters) with
+/// several ties, three of them at scale one; reference unit written tenth.
+#[quantity]
+#[unit(Laa, "laa", 3)]
+#[unit(Lab, "lab", 1)]
+#[unit(Lac, "lac", 5)]
+#[unit(Lad, "lad", 0.5)]
+#[unit(Lae, "lae", 1.0)]
+#[unit(Laf, "laf", 7)]
+#[unit(Lag, "lag", 5.0)]
+#[unit(Lah, "lah", 0.25)]
+#[unit(Lai, "lai", 11)]
+#[ref_unit(El, "el")]
+#[unit(Laj, "laj", 13)]
+#[unit(Lak, "lak", 2)]
+#[unit(Lal, "lal", 2.0)]
+#[unit(Lam, "lam", 17)]
+#[unit(Lan, "lan", 0.125)]
+#[unit(Lao, "lao", 19)]
+#[unit(Lap, "lap", 1e0)]
+#[unit(Laq, "laq", 23)]
+#[unit(Lar, "lar", 29)]
+#[unit(Las, "las", 0.5)]
+#[unit(Lat, "lat", 31)]
+#[unit(Lau, "lau", 37)]
+#[unit(Lav, "lav", 41)]
+#[unit(Law, "law", 5e0)]
+pub struct SynL {}
